@@ -169,4 +169,31 @@ Section Cells.
       + destruct (IHb y H) as (j & Hj & G). exists (j + 1). split. lia. rewrite S by lia. exact G.
     - destruct (IHb y H) as (j & Hj & G). exists (j + 1). split. lia. rewrite S by lia. exact G.
   Qed.
+
+  Lemma bget_cons_succ : forall (a : option Y) (b : cells) j, 0 <= j -> bget (a :: b) (j + 1) = bget b j.
+  Proof.
+    intros a b j Hj. unfold bget. destruct (Z.leb_spec 0 (j + 1)); try lia. destruct (Z.leb_spec 0 j); try lia.
+    replace (Z.to_nat (j + 1)) with (S (Z.to_nat j)) by lia. reflexivity.
+  Qed.
+
+  Lemma filled_tail : forall n (a : option Y) (b : cells), filled n (a :: b) -> filled (n - 1) b.
+  Proof.
+    intros n a b F j Hj. specialize (F (j + 1) ltac:(lia)). rewrite bget_cons_succ in F by lia.
+    destruct F as [F1 F2]. split; intros; [apply F1|apply F2]; lia.
+  Qed.
+
+  Lemma entries_length_filled : forall (b : cells) n, filled n b -> 0 <= n <= len b ->
+    Z.of_nat (List.length (entries b)) = n.
+  Proof.
+    induction b as [|a b IH]; intros n F Hn.
+    - unfold len in Hn. simpl in *. lia.
+    - assert (L : len (a :: b) = len b + 1) by (unfold len; simpl List.length; lia).
+      pose proof (F 0 ltac:(lia)) as [F1 F2]. unfold bget in F1, F2; simpl in F1, F2.
+      pose proof (filled_tail _ _ _ F) as Ft.
+      destruct (Z.eq_dec n 0) as [->|N].
+      + rewrite F2 by lia. simpl entries.
+        rewrite (entries_all_nothing b); [reflexivity|]. intros j Hj. apply (Ft j Hj). lia.
+      + destruct a as [y|]; [|exfalso; apply F1; auto; lia].
+        simpl entries. simpl List.length. rewrite Nat2Z.inj_succ. rewrite (IH (n - 1)); auto; lia.
+  Qed.
 End Cells.
